@@ -75,6 +75,48 @@ class CB:
             return False
         return g.edge_dominates((sw_bb, tgt), site_bb)
 
+    def arm_of(self, body, site_bb):
+        """(variant, defining edge) of the circuit-state arm that dominates site_bb: a `match self.state` arm, or the
+        true edge of `self.state == Variant` / false edge of `!=`; ('*', None) when no state test dominates it"""
+        best = ("*", None)
+        for e in dominating_edges(self.tr, body, site_bb):
+            if e["kind"] == "enum" and e["label"] in ("Closed", "Open", "HalfOpen"):
+                n = e["node"]
+                if n[0] == "field" and n[2] == self.state_field and n[3] == self.circuit_adt:
+                    best = (e["label"], e)
+            elif e["kind"] == "bool":
+                c = cmp_on_edge(self.tr, e)
+                if c and c[0] == "Eq":
+                    for (x, y) in ((c[1], c[2]), (c[2], c[1])):
+                        if x[0] == "field" and x[2] == self.state_field and x[3] == self.circuit_adt:
+                            v = None
+                            for z in self.tr.walk(y, limit=12):
+                                if z[0] == "agg":
+                                    v = self.tr.agg_of(z)[1].get("variant")
+                                elif z[0] == "const" and isinstance(z[1], str):
+                                    for nm in ("HalfOpen", "Closed", "Open"):
+                                        if nm in z[1]:
+                                            v = v or nm
+                            if v:
+                                best = (v, e)
+        return best
+
+    def inner_guards(self, body, site_bb, arm_edge):
+        """bool edges dominating site_bb that lie inside the arm (after its defining edge)"""
+        if arm_edge is None:
+            return []
+        g = graph(body)
+        tgt = arm_edge["sw"].variants.get(arm_edge["label"])
+        out = []
+        for e in dominating_edges(self.tr, body, site_bb):
+            if e["kind"] != "bool" or e is arm_edge or (e["bb"] == arm_edge["bb"]):
+                continue
+            if "via" in e:
+                continue
+            if g.edge_dominates((arm_edge["bb"], tgt), e["bb"]):
+                out.append(e)
+        return out
+
     def transition_calls(self):
         """[(caller body, Call, target variant name or None)] for every call of the transition fn"""
         out = []
